@@ -21,7 +21,7 @@ from vf.xmodel import Schema, Rop
 
 SHARDS = {'quick': 16, 'thorough': 64}
 TIMEOUT = {'quick': 1500, 'thorough': 7200}
-MUST_HIT = ['Schema.association-number-declared-in-two-separate-runs', 'EarlierObject.rechecked', 'Count.association', 'Count.uniqueness', 'Count.is_consistent', 'Count.restricted-rel',
+MUST_HIT = ['Count.subtype-supertype-with-two-subtypes', 'Schema.association-number-declared-in-two-separate-runs', 'EarlierObject.rechecked', 'Count.association', 'Count.uniqueness', 'Count.is_consistent', 'Count.restricted-rel',
             'Count.restricted-kind', 'Count.subtype', 'Cli.main-return', 'Cli.process-exit-status',
             'Cli.exit-status-at-multiple-of-256', 'Count.subtype-after-history', 'Cli.bridgepoint-main', 'Cli.bridgepoint-all-associations-all-classes', 'Cli.bridgepoint-r-k',
             'Cli.bridgepoint-all-associations-k', 'Cli.bridgepoint-r-all-classes', 'Count.null-lowercase-unique_id', 'Count.nonzero-association',
@@ -240,12 +240,20 @@ def subtype_check(ctx, rng):
     n = rng.randint(0, 6)
     pop.rows['Sup'] = [dict(Id=i + 1) for i in range(n)]
     lacking = 0
+    both = set()
     for i in range(n):
         k = rng.random()
         if k < 0.4:
             pop.rows['S1'].append(dict(Id=i + 1))
         elif k < 0.7:
             pop.rows['S2'].append(dict(Id=i + 1))
+        elif k < 0.8:
+            # instances of two subtype classes refer to it: it does not lack a subtype (that it has one too many is
+            # what the association check reports)
+            pop.rows['S1'].append(dict(Id=i + 1))
+            pop.rows['S2'].append(dict(Id=i + 1))
+            both.add(i + 1)
+            ctx.hit('Count.subtype-supertype-with-two-subtypes')
         else:
             lacking += 1
     order = list(sch.classes)
@@ -257,11 +265,12 @@ def subtype_check(ctx, rng):
             raise Mismatch('subtype-count', 'check_subtype_integrity reports %d, %d supertype instances '
                            'lack a subtype' % (got, lacking))
     # ... and after an API history: subtypes unrelated, deleted, added, migrated
-    sups = dict((x.Id, x) for x in m.select_many('Sup'))
+    sups = dict((x.Id, x) for x in m.select_many('Sup') if x.Id not in both)
     sub_of = {}
     for kind in ('S1', 'S2'):
         for x in m.select_many(kind):
-            sub_of[x.Id] = x
+            if x.Id not in both:
+                sub_of[x.Id] = x
     log = []
     for _ in range(rng.randint(0, 6)):
         if not sups:
